@@ -3,7 +3,7 @@
 # results in /tmp/sweep_out/<id>.txt  (lines: "<prop> exit=<code> <violated obligation names>")
 out=/tmp/sweep_out; mkdir -p $out
 here=$(pwd)
-ids=${*:-$(ls /verif/seeded)}
+ids=${*:-$(ls /verif/seeded | grep -v "^_")}
 for id in $ids; do
   [ -f $out/$id.txt ] && continue
   wt=/tmp/sw_$id
